@@ -1,6 +1,7 @@
 //! The call sites: one fixed `emit::props!` invocation per (static type, capture attribute,
 //! optional wrapping), stamped out with macros and fed runtime-generated values.
 
+use std::cell::RefCell;
 use std::fmt;
 
 use emit::Props;
@@ -32,6 +33,83 @@ impl<'a, 'b, 'c> Site<'a, 'b, 'c> {
         }
         judge(&self.exp, &self.case.hops, &reads, self.cx)
     }
+}
+
+/// The runtime an `emit::emit!` call site emits through.
+pub type Rt<'r> = emit::runtime::Runtime<Box<dyn emit::emitter::ErasedEmitter + 'r>>;
+
+impl<'a, 'b, 'c> Site<'a, 'b, 'c> {
+    /// `call` is the `emit::emit!` call site; the event it produces is read inside the emitter.
+    pub fn finish_emit(&mut self, call: impl FnOnce(&Rt<'_>)) -> Res {
+        let result: RefCell<(Vec<crate::obs::Read>, Result<(), Fail>, usize)> = RefCell::new((Vec::new(), Ok(()), 0));
+        {
+            let key = self.exp.key;
+            let case = self.case;
+            let emitter = emit::emitter::from_fn(|evt| {
+                let mut r = result.borrow_mut();
+                let (reads, res, n) = &mut *r;
+                *n += 1;
+                *res = drive(evt.props(), key, &case.hops, 0, want_for(case), reads);
+            });
+            let rt: Rt = emit::runtime::Runtime::new().with_emitter(Box::new(emitter) as Box<dyn emit::emitter::ErasedEmitter + '_>);
+            call(&rt);
+        }
+        let (reads, res, n) = result.into_inner();
+        if n != 1 {
+            self.cx.fail("emit-macro/event-count", format!("the call site produced {n} events"))?;
+        }
+        if let Err(f) = res {
+            self.cx.fail(f.sig, f.msg)?;
+        }
+        judge(&self.exp, &self.case.hops, &reads, self.cx)
+    }
+}
+
+macro_rules! emit_for {
+    (Default, $rt:expr, $e:expr) => { emit::emit!(rt: $rt, "c19 {v}", v: $e) };
+    (Display, $rt:expr, $e:expr) => { emit::emit!(rt: $rt, "c19 {v}", #[emit::as_display] v: $e) };
+    (DisplayI, $rt:expr, $e:expr) => { emit::emit!(rt: $rt, "c19 {v}", #[emit::as_display(inspect: true)] v: $e) };
+    (Debug, $rt:expr, $e:expr) => { emit::emit!(rt: $rt, "c19 {v}", #[emit::as_debug] v: $e) };
+    (DebugI, $rt:expr, $e:expr) => { emit::emit!(rt: $rt, "c19 {v}", #[emit::as_debug(inspect: true)] v: $e) };
+    (Value, $rt:expr, $e:expr) => { emit::emit!(rt: $rt, "c19 {v}", #[emit::as_value] v: $e) };
+    (ValueI, $rt:expr, $e:expr) => { emit::emit!(rt: $rt, "c19 {v}", #[emit::as_value(inspect: true)] v: $e) };
+    (Sval, $rt:expr, $e:expr) => { emit::emit!(rt: $rt, "c19 {v}", #[emit::as_sval] v: $e) };
+    (SvalI, $rt:expr, $e:expr) => { emit::emit!(rt: $rt, "c19 {v}", #[emit::as_sval(inspect: true)] v: $e) };
+    (Serde, $rt:expr, $e:expr) => { emit::emit!(rt: $rt, "c19 {v}", #[emit::as_serde] v: $e) };
+    (SerdeI, $rt:expr, $e:expr) => { emit::emit!(rt: $rt, "c19 {v}", #[emit::as_serde(inspect: true)] v: $e) };
+    (Error, $rt:expr, $e:expr) => { emit::emit!(rt: $rt, "c19 {v}", #[emit::as_error] v: $e) };
+}
+
+macro_rules! opt_emit_for {
+    (Default, $rt:expr, $e:expr) => { emit::emit!(rt: $rt, "c19 {v}", #[emit::optional] v: $e) };
+    (Display, $rt:expr, $e:expr) => { emit::emit!(rt: $rt, "c19 {v}", #[emit::optional] #[emit::as_display] v: $e) };
+    (DisplayI, $rt:expr, $e:expr) => { emit::emit!(rt: $rt, "c19 {v}", #[emit::optional] #[emit::as_display(inspect: true)] v: $e) };
+    (Debug, $rt:expr, $e:expr) => { emit::emit!(rt: $rt, "c19 {v}", #[emit::optional] #[emit::as_debug] v: $e) };
+    (DebugI, $rt:expr, $e:expr) => { emit::emit!(rt: $rt, "c19 {v}", #[emit::optional] #[emit::as_debug(inspect: true)] v: $e) };
+    (Value, $rt:expr, $e:expr) => { emit::emit!(rt: $rt, "c19 {v}", #[emit::optional] #[emit::as_value] v: $e) };
+    (ValueI, $rt:expr, $e:expr) => { emit::emit!(rt: $rt, "c19 {v}", #[emit::optional] #[emit::as_value(inspect: true)] v: $e) };
+    (Sval, $rt:expr, $e:expr) => { emit::emit!(rt: $rt, "c19 {v}", #[emit::optional] #[emit::as_sval] v: $e) };
+    (SvalI, $rt:expr, $e:expr) => { emit::emit!(rt: $rt, "c19 {v}", #[emit::optional] #[emit::as_sval(inspect: true)] v: $e) };
+    (Serde, $rt:expr, $e:expr) => { emit::emit!(rt: $rt, "c19 {v}", #[emit::optional] #[emit::as_serde] v: $e) };
+    (SerdeI, $rt:expr, $e:expr) => { emit::emit!(rt: $rt, "c19 {v}", #[emit::optional] #[emit::as_serde(inspect: true)] v: $e) };
+    (Error, $rt:expr, $e:expr) => { emit::emit!(rt: $rt, "c19 {v}", #[emit::optional] #[emit::as_error] v: $e) };
+}
+
+/// The `emit::emit!` twin of `sites!`.
+macro_rules! emit_sites {
+    ($site:ident, $x:expr, $some:expr; $($mode:ident)+) => {
+        match ($site.case.mode, $site.case.opt) {
+            $(
+                (Mode::$mode, Opt::Plain) => $site.finish_emit(|rt| emit_for!($mode, rt, $x)),
+                (Mode::$mode, o) => {
+                    let ov = if o == Opt::Some { $some } else { None };
+                    $site.finish_emit(|rt| opt_emit_for!($mode, rt, ov))
+                }
+            )+
+            #[allow(unreachable_patterns)]
+            (m, _) => Err(Fail::new("harness/unsupported-mode", format!("capture mode {m:?} is not stamped out for this subject"))),
+        }
+    };
 }
 
 macro_rules! props_for {
@@ -362,6 +440,7 @@ fn classify(case: &Case, cx: &mut Cx) {
             let shape = spec.build().shape();
             cx.class("subject:node");
             cx.class_if(shape.depth >= 2, "shape:depth>=2");
+            cx.class_if(shape.depth >= 4, "shape:depth>=4");
             cx.class_if(shape.nested_seq, "shape:nested-seq");
             cx.class_if(!shape.nested_seq, "shape:no-nested-seq");
             cx.class_if(shape.nonfinite, "shape:non-finite-float");
@@ -382,6 +461,7 @@ fn classify(case: &Case, cx: &mut Cx) {
         }
         Subj::Err(m) | Subj::DynErr(m) | Subj::Wk(Wk::Err(m)) | Subj::Wk(Wk::ErrDyn(m)) => {
             cx.class("subject:error");
+            cx.class_if(matches!(case.subj, Subj::Wk(_)), "mode:error");
             cx.class(match m.len() {
                 0 | 1 => "error:depth-0",
                 2 => "error:depth-1",
@@ -391,6 +471,10 @@ fn classify(case: &Case, cx: &mut Cx) {
             });
         }
         Subj::Str(_) | Subj::String(_) | Subj::Static(_) => cx.class("subject:string"),
+        Subj::Wk(Wk::ErrStr(_)) => {
+            cx.class("subject:well-known");
+            cx.class("mode:error");
+        }
         Subj::Wk(_) => cx.class("subject:well-known"),
         Subj::Disp(_) | Subj::Dyn(_) | Subj::Char(_) => cx.class("subject:display-only"),
         Subj::Bool(_) => cx.class("subject:bool"),
@@ -427,9 +511,62 @@ fn classify(case: &Case, cx: &mut Cx) {
     cx.nontrivial(nontrivial);
 }
 
+fn check_emit(case: &Case, cx: &mut Cx) -> Res {
+    let mode = case.mode;
+    macro_rules! prim {
+        ($x:expr, $t:ty, $kind:expr, $typed:expr; $($mode:ident)+) => {{
+            let x: $t = $x;
+            let exp = expect_prim(&orig(&x), $kind, $typed, mode, false);
+            let mut site = Site::new(case, exp, cx);
+            emit_sites!(site, x, Some(&x); $($mode)+)
+        }};
+    }
+    match &case.subj {
+        Subj::I64(v) => prim!(*v, i64, Kind::Number, int_typed_i(*v as i128, IntTy::I64); Default Display DisplayI Debug DebugI Value ValueI Sval SvalI Serde SerdeI),
+        Subj::U64(v) => prim!(*v, u64, Kind::Number, int_typed_u(*v as u128, IntTy::U64); Default Display DisplayI Debug DebugI Value ValueI Sval SvalI Serde SerdeI),
+        Subj::U128(v) => prim!(*v, u128, Kind::Number, int_typed_u(*v, IntTy::U128); Default Display DisplayI Debug DebugI Value ValueI Sval SvalI Serde SerdeI),
+        Subj::F64(b) => prim!(f64::from_bits(*b), f64, Kind::Number, Some(Typed::F64(f64::from_bits(*b))); Default Display DisplayI Debug DebugI Value ValueI Sval SvalI Serde SerdeI),
+        Subj::Bool(v) => prim!(*v, bool, Kind::Bool, Some(Typed::Bool(*v)); Default Display DisplayI Debug DebugI Value ValueI Sval SvalI Serde SerdeI),
+        Subj::F32(b) => prim!(f32::from_bits(*b), f32, Kind::Number, Some(Typed::F32(f32::from_bits(*b))); Default Display DisplayI Debug DebugI Sval SvalI Serde SerdeI),
+        Subj::Str(s) => {
+            let x: &str = s;
+            let exp = str_expect(x, mode, "v");
+            let mut site = Site::new(case, exp, cx);
+            emit_sites!(site, x, Some(x); Default Display DisplayI Debug DebugI Value ValueI Sval SvalI Serde SerdeI Error)
+        }
+        Subj::String(s) => {
+            let x: String = s.clone();
+            let exp = expect_prim(&orig(&x), Kind::Str, Some(Typed::Str(x.clone())), mode, false);
+            let mut site = Site::new(case, exp, cx);
+            emit_sites!(site, x, Some(&x); Default Display DisplayI Debug DebugI Value ValueI Sval SvalI Serde SerdeI)
+        }
+        Subj::Node(spec) => {
+            let x = spec.build();
+            let exp = expect_structured(&x, mode, x.shape().nested_seq);
+            let mut site = Site::new(case, exp, cx);
+            emit_sites!(site, x, Some(&x); Debug DebugI Sval SvalI Serde SerdeI)
+        }
+        Subj::Err(msgs) => {
+            let x = ChainErr::build(msgs);
+            let mut exp = expect_fmt(&x, Kind::Error, mode);
+            if mode == Mode::Error {
+                exp.err_chain = Some(x.messages());
+            }
+            let mut site = Site::new(case, exp, cx);
+            emit_sites!(site, x, Some(&x); Error Default Display DisplayI Debug DebugI)
+        }
+        other => Err(Fail::new("harness/unsupported-mode", format!("no emit! call sites are stamped out for {other:?}"))),
+    }
+}
+
 /// The oracle: run the case's value through its call site and every read path.
 pub fn check(case: &Case, cx: &mut Cx) -> Res {
     classify(case, cx);
+    if case.emit_macro {
+        cx.class("site:emit-macro");
+        return check_emit(case, cx);
+    }
+    cx.class("site:props-macro");
     let mode = case.mode;
     match &case.subj {
         Subj::I8(v) => prim_site!(case, cx, *v, i8, Kind::Number, int_typed_i(*v as i128, IntTy::I8)),
@@ -501,6 +638,15 @@ pub fn check(case: &Case, cx: &mut Cx) -> Res {
                 Mode::Serde | Mode::SerdeI => exp.json = Some(JsonExpect { by: Fw::Serde, a: sj(&x), b: vj(&x), nested_seq: false }),
                 Mode::Sval | Mode::SvalI => exp.json = Some(JsonExpect { by: Fw::Sval, a: sj(&x), b: vj(&x), nested_seq: false }),
                 _ => exp.display = Some(format!("{x:?}")),
+            }
+            if mode.inspect() && mode != Mode::ValueI {
+                // `inspect: true` may capture the primitive inside the option (or null) instead
+                let mut alt = Expect::new("v", Kind::Number);
+                match x {
+                    Some(i) => alt = expect_prim(&orig(&i), Kind::Number, int_typed_i(i as i128, IntTy::I32), Mode::Value, false),
+                    None => alt.null = true,
+                }
+                exp.alt = Some((Box::new(alt), "dontcare:inspect-captures-typed-primitive"));
             }
             let mut site = Site::new(case, exp, cx);
             sites!(site, v, x, Some(&x); Debug DebugI Value ValueI Sval SvalI Serde SerdeI)
